@@ -18,9 +18,24 @@ Lemma start_translated :
           "frost_sameParties"; "frost_Keygen"; "frost_KeygenTaproot"; "frost_Refresh"; "frost_RefreshTaproot"; "frost_Sign";
           "frost_SignTaproot"; "frost_keygen_StartKeygenCommon"; "frost_sign_StartSignCommon"; "doerner_Keygen";
           "doerner_RefreshReceiver"; "doerner_RefreshSender"; "doerner_SignReceiver"; "doerner_SignSender";
-          "doerner_keygen_StartKeygen"; "doerner_sign_StartSignReceiver"; "doerner_sign_StartSignSender"] = true
+          "doerner_keygen_StartKeygen"; "doerner_sign_StartSignReceiver"; "doerner_sign_StartSignSender"; "example_StartXOR"] = true
   /\ validators_untranslatable = [].
 Proof. split; vm_compute; reflexivity. Qed.
+
+(* every function below protocols/ that returns a protocol.StartFunc is one of the translated ones: a new entry point changes
+   the list and fails here until it gets an environment and a theorem *)
+Lemma start_functions_complete :
+  go_start_functions =
+  [ "protocols/cmp/keygen: Start"; "protocols/cmp/presign: StartPresign"; "protocols/cmp/presign: StartPresignOnline";
+    "protocols/cmp/sign: StartSign"; "protocols/cmp: Keygen"; "protocols/cmp: Presign"; "protocols/cmp: PresignOnline";
+    "protocols/cmp: Refresh"; "protocols/cmp: Sign"; "protocols/doerner/keygen: StartKeygen";
+    "protocols/doerner/sign: StartSignReceiver"; "protocols/doerner/sign: StartSignSender"; "protocols/doerner: Keygen";
+    "protocols/doerner: RefreshReceiver"; "protocols/doerner: RefreshSender"; "protocols/doerner: SignReceiver";
+    "protocols/doerner: SignSender"; "protocols/doerner: startError"; "protocols/example: StartXOR";
+    "protocols/frost/keygen: StartKeygenCommon"; "protocols/frost/sign: StartSignCommon"; "protocols/frost: Keygen";
+    "protocols/frost: KeygenTaproot"; "protocols/frost: Refresh"; "protocols/frost: RefreshTaproot"; "protocols/frost: Sign";
+    "protocols/frost: SignTaproot"; "protocols/frost: startError" ].
+Proof. reflexivity. Qed.
 
 (* startError(err) is the StartFunc that refuses with err *)
 Lemma startError_ok :
@@ -252,7 +267,8 @@ Lemma start_session_infos :
   session_info go_frost_sign_StartSignCommon_lits = (Some "result.ID", Some "signers", Some "result.Threshold", Some "result.PublicKey.Curve()") /\
   session_info go_doerner_keygen_StartKeygen_lits = (Some "selfID", Some "party.NewIDSlice([]party.ID{selfID, otherID})", Some "1", Some "group") /\
   session_info go_doerner_sign_StartSignReceiver_lits = (Some "selfID", Some "party.NewIDSlice([]party.ID{selfID, otherID})", Some "1", Some "config.Group()") /\
-  session_info go_doerner_sign_StartSignSender_lits = (Some "selfID", Some "party.NewIDSlice([]party.ID{selfID, otherID})", Some "1", Some "config.Group()").
+  session_info go_doerner_sign_StartSignSender_lits = (Some "selfID", Some "party.NewIDSlice([]party.ID{selfID, otherID})", Some "1", Some "config.Group()") /\
+  session_info go_example_StartXOR_lits = (Some "selfID", Some "partyIDs", None, None).
 Proof. repeat split; reflexivity. Qed.
 
 (* one round.Info per session constructor, none in the pure delegations *)
@@ -596,4 +612,19 @@ Proof.
   split.
   - intros (Hc & Hm & H0 & H1 & H2 & H3 & H4 & H5). repeat split; try assumption; try lia. intros j Hj. apply Hh. now apply H0.
   - intros [[[Hc Hm] H2] (H6 & H7 & H8 & H9 & H10)]. repeat split; try assumption; try lia. intros j Hj. apply Hh. now apply H10.
+Qed.
+
+(* ---------------------------------------------------------------- example.StartXOR *)
+
+Lemma example_StartXOR ids self :
+  geval (alookup (env_xor ids self)) go_example_StartXOR = Some (xor_start ids self).
+Proof. unfold env_xor, go_example_StartXOR, xor_start. set (so := sess_ok _ _ _ _). ssolve. Qed.
+
+Lemma xor_start_iff ids self :
+  xor_start ids self = true <-> NoDup ids /\ (forall id, In id ids -> id_ok None id = true) /\ In self ids.
+Proof.
+  unfold xor_start. rewrite sess_ok_iff. split.
+  - intros (H1 & H2 & H3 & _). repeat split; assumption.
+  - intros (H1 & H2 & H3). repeat split; try assumption; try (unfold max_uint32; lia).
+    destruct ids; [contradiction|]. cbn [length]. lia.
 Qed.
